@@ -354,6 +354,6 @@ fn main() {
         };
         Case { data, ranges, markers, marker_starts, exclusion: excl, alg, chunks }
     });
-    run.drive_par("random_ranges", run.scale(8_000, 600_000), 16, strat, |c| judge(&run, c));
+    run.drive_par("random_ranges", run.scale(8_000, 120_000), 16, strat, |c| judge(&run, c));
     run.finish();
 }
